@@ -34,7 +34,8 @@ CHECKS = {
                "host/guest feature once, denotation, outer markers, well-formedness).", "DESIGN.md 5 C02"),
     "C03": seq("TLC enumerates every (location term, deletion / erase / slice window incl. wrap-around and negative indices); "
                "the real Delete/Erase/Slice are judged on denoted residue identities, outer partial markers, sites at the cut, "
-               "dropping, well-formedness, topology.", "DESIGN.md 5 C03"),
+               "dropping, well-formedness, topology, and the REFERENCE base ranges after Slice (RefRule); pieces cut from one "
+               "shared value (no defensive copies) are judged as well.", "DESIGN.md 5 C03"),
     "C04": seq("TLC enumerates every rotation amount in [-3L,3L] and (sampled/exhaustive) pairs (a,b); the real Rotate is "
                "judged on identities (pure re-origin), and the additive / inverse laws are checked as laws of the workspace.",
                "DESIGN.md 5 C04"),
@@ -47,8 +48,10 @@ CHECKS = {
                 "specification of the text form; bounded universe", technique="TLA+ LocText: TLC design check of the "
                 "transcribed reduction + TLC-generated terms/strings replayed + TLC trace validation"),
     "C08": dict(text="TLC enumerates regions (1..5 segments, either strand, mixed, nested) x all five modifier forms x offsets; "
-                     "real Region.Resize/Locate/Modifier text judged against 'slice of the spliced coordinate, extended outward'.",
-                design_ref="DESIGN.md 5 C08", note="bounded segment counts/lengths; locator strings are covered by the C15/C19 checks",
+                     "real Region.Resize/Locate/Modifier text judged against 'slice of the spliced coordinate, extended outward'; "
+                     "a second generator (MC_Locator) enumerates locator strings X@M over feature tables and Trace_Locator judges "
+                     "the regions gts.AsLocator(string)(record) returns.",
+                design_ref="DESIGN.md 5 C08", note="bounded segment counts/lengths; selectors inside locators by key (clauses are C19's)",
                 technique="TLA+ Region: TLC design check of transcribed Resize/Apply + generated cases replayed + trace validation"),
     "C09": dict(text="TLC enumerates region collections over [0,N]; real Minimize/InvertLinear/InvertCircular judged as an "
                      "exact partition of [0,N) with maximal runs.",
@@ -59,8 +62,8 @@ CHECKS = {
 }
 CHECKS["C11"] = seq(
     "TLC generates sequences of 1..4 library calls applied to the same original values in every storage configuration "
-    "(len==cap, spare capacity, sub-slice of a larger buffer, two arguments side by side in one buffer, unparsed/parsed "
-    "Origin; GenBank and basic sequences); the harness passes the arguments uncopied and re-reads every record through its "
+    "(len==cap, spare capacity, sub-slice of a larger buffer, two arguments side by side in one buffer and in one shared "
+    "feature table, unparsed/parsed Origin; GenBank and basic sequences); the harness passes the arguments uncopied and re-reads every record through its "
     "accessors after every call; Trace_Seq requires every re-read to equal the abstract record (the machine never changes a "
     "bound record) and a repeated application to give the same result.", "DESIGN.md 5 C11",
     tech="TLA+ Seq workspace machine (records are immutable): TLC-generated call sequences x storage configurations replayed uncopied + probe events validated by TLC")
@@ -88,7 +91,7 @@ CHECKS["C16"] = dict(
          "toOriginLength/fromOriginLength agree with it and are mutually inverse for every n in the bound, Apalache "
          "discharges the identities for all n in Nat; the real NewOrigin/String/Bytes/Len and the reader's fast and slow "
          "paths are replayed for every length and judged against Lines(n).",
-    design_ref="DESIGN.md 5 C16", note="lengths 0..MaxN (quick 2000, thorough 20000); two residue alphabets",
+    design_ref="DESIGN.md 5 C16", note="lengths 0..MaxN (quick 2000, thorough 50000) plus windows around the index-width changes up to 10^7; two residue alphabets",
     technique="TLA+ TextIO: TLC design check of the size arithmetic + Apalache (unbounded) + every length replayed + trace validation")
 CHECKS["C17"] = dict(
     text="FASTA wrapping is specified as WrapLines(n,70) and the record stream as a FIFO of (description, residues); TLC "
@@ -108,7 +111,8 @@ CHECKS["C13"] = dict(
 CHECKS["C14"] = dict(
     text="CacheCLI.tla specifies the cache directory as a map keyed by everything that may influence the output and TLC "
          "checks Transparent/DirSound over all histories (hits, misses, failing runs, file sinks removing entries); TLC "
-         "generates probe/neighbour histories for all 19 cached subcommands, the gts binary built from the tree is run for "
+         "generates probe/neighbour histories for all 19 cached subcommands (neighbours differ in one flag, one option value, "
+         "the split of a list-valued option, one positional argument or their order, -F, the -o extension, an input), the gts binary built from the tree is run for "
          "every step, and Trace_CacheCLI requires every cached run to equal its uncached reference.",
     design_ref="DESIGN.md 5 C14", note="histories of length <= 4 over probe/neighbour pairs; corpus inputs",
     technique="TLA+ CacheCLI: TLC design check + TLC-generated invocation histories run on the real binary + trace validation")
@@ -116,7 +120,7 @@ CHECKS["C15"] = dict(
     text="Cli.tla specifies each multi-site command on the abstract record from the regions the locator resolves to, in input "
          "coordinates and all sites at once (union removed; one guest copy per region at its 5' boundary; pieces concatenate "
          "back; first located position to index 0; one record per distinct region / maximal unlocated stretches). TLC "
-         "enumerates records x locators x commands x options, the gts binary built from the tree is run on each, and "
+         "enumerates records x locators x commands (delete, insert, infix, split, rotate, extract) x options, the gts binary built from the tree is run on each, and "
          "Trace_Cli judges the parsed outputs on residue identities.",
     design_ref="DESIGN.md 5 C15", note="generated 10-bp records; selectors by key; modifiers staying in range",
     technique="TLA+ Cli over the Seq abstract state: TLC-enumerated command configurations run on the real binary + trace validation")
